@@ -83,20 +83,73 @@ FAMILIES = [
      "S": [("s", "S4"), ("n", "i8"), ("t", "S2", (2, 1))],
      "F": [("s", "S4"), ("n", "i8")],
      "R": [("n", "i8"), ("s", "S4"), ("t", "S2", (2,))]},
+    # families 4 and 5 serve the byte-order dimension (ORDER_FAMS): several numeric sub-array fields of different
+    # element sizes next to string / native key columns (4), and strings + sub-array fields ONLY (5: there a uniformly
+    # big-endian chunk has no scalar numeric field at all)
+    {"D": [("name", "S4"), ("id", "i4"), ("pos", "f8", (2,)), ("cnt", "i2", (3,))],
+     "N": [("name", "S4"), ("id", "i4"), ("pos", "f8", (2,)), ("num", "i2", (3,))],
+     "T": [("name", "S4"), ("id", "i4"), ("pos", "f8", (2,)), ("cnt", "u2", (3,))],
+     "S": [("name", "S4"), ("id", "i4"), ("pos", "f8", (2,)), ("cnt", "i2", (1, 3))],
+     "F": [("name", "S4"), ("id", "i4"), ("pos", "f8", (2,))],
+     "R": [("id", "i4"), ("name", "S4"), ("pos", "f8", (2,)), ("cnt", "i2", (3,))]},
+    {"D": [("tag", "S2"), ("pos", "f4", (2,)), ("m", "u2", (2, 2))],
+     "N": [("tag", "S2"), ("xy", "f4", (2,)), ("m", "u2", (2, 2))],
+     "T": [("tag", "S2"), ("pos", "i4", (2,)), ("m", "u2", (2, 2))],
+     "S": [("tag", "S2"), ("pos", "f4", (2,)), ("m", "u2", (4,))],
+     "F": [("tag", "S2"), ("pos", "f4", (2,))],
+     "R": [("pos", "f4", (2,)), ("tag", "S2"), ("m", "u2", (2, 2))]},
 ]
+GENERAL_FAMS = 4              # the families every part of the check rotates through
+ORDER_FAMS = (0, 1, 4, 5)     # the families of the byte-order part: numeric sub-array fields present
 BASES = ("D", "N", "T", "S", "F", "R")
 NATIVE = "lt" if np.little_endian else "gt"
 
 
+# byte orders of a descr (RecStore.tla: Orders): per FIELD CLASS - the scalar fields and the sub-array (vector / n-d)
+# fields of a table can differ in byte order (columns taken over from a FITS table / an XDR dump next to native keys)
+#   lt : all little-endian      gt : all big-endian
+#   vg : sub-array fields big-endian, scalar fields little-endian      sg : scalar fields big-endian, sub-array fields little
+ORDERS = ("lt", "gt", "vg", "sg")
+MIXED_ORDERS = ("vg", "sg")
+_ORDER_CH = {"lt": ("<", "<"), "gt": (">", ">"), "vg": ("<", ">"), "sg": (">", "<"), "na": ("=", "=")}   # (scalar, sub-array)
+
+
 def dtype_of(fam, base, order):
     """numpy dtype of descr <<base, order>> in family `fam` ('na' = native, as text files read back)"""
-    ch = {"lt": "<", "gt": ">", "na": "="}[order]
+    chs = _ORDER_CH[order]
     out = []
     for f in FAMILIES[fam][base]:
         code = f[1]
-        code = ("|" if code[0] == "S" or code.endswith("1") else ch) + code
+        code = ("|" if code[0] == "S" or code.endswith("1") else chs[1 if len(f) > 2 else 0]) + code
         out.append((f[0], code) + tuple(f[2:]))
     return np.dtype(out)
+
+
+def order_effective(fam, base, order):
+    """the descr <<base, order>> is a dtype of its own in this family (a mixed order needs a numeric scalar field and
+    a numeric sub-array field to differ from both uniform orders)"""
+    return all(dtype_of(fam, base, order) != dtype_of(fam, base, o) for o in ORDERS if o != order)
+
+
+def reorder(a, fam, base, order):
+    """the little-endian array `a` of base `base` with the SAME VALUES in byte order `order`: the bytes of every
+    element of every field whose order differs are reversed (bit for bit: NaN payloads survive)"""
+    if order == "na":
+        order = NATIVE
+    le, tgt = a.dtype, dtype_of(fam, base, order)
+    if tgt == le:
+        return a
+    raw = np.frombuffer(a.tobytes(), dtype=np.uint8).reshape(a.size, le.itemsize).copy()
+    for name in le.names:
+        ft, off = le.fields[name][0], le.fields[name][1]
+        if tgt.fields[name][0].base == ft.base:
+            continue
+        sz = ft.base.itemsize
+        nel = int(np.prod(ft.shape, dtype=int)) if ft.shape else 1
+        for e in range(nel):
+            o = off + e * sz
+            raw[:, o:o + sz] = raw[:, o:o + sz][:, ::-1]
+    return np.frombuffer(raw.tobytes(), dtype=tgt).copy()
 
 
 def descr_id(fam, dt, text):
@@ -108,7 +161,7 @@ def descr_id(fam, dt, text):
             if dt.newbyteorder("<") == dtype_of(fam, base, "lt"):
                 return [base, "na"]
         else:
-            for order in ("lt", "gt"):
+            for order in ORDERS:                      # (a mixed order that is no dtype of its own reads as the uniform one)
                 if dt == dtype_of(fam, base, order):
                     return [base, order]
     return ["?", "na"]
@@ -170,9 +223,7 @@ def concrete_row(seed, fam, base, order, token, text):
                 elif k == "S":
                     raw[o:o + sz] = [b"\x00" * sz, b"a" + b"\x00" * (sz - 1), b"\x00" * (sz - 1) + b"z"][(sel // 3) % 3]
         a = np.frombuffer(bytes(raw), dtype=le).copy()
-    if order == "lt" or (order == "na" and np.little_endian):
-        return a
-    return a.byteswap().view(dtype_of(fam, base, "gt"))
+    return reorder(a, fam, base, order)
 
 
 # ---- scale: a token >= BIG_TOK is a block of many rows (RecStore.tla: BigTok, BigW) --------------------------------
@@ -206,9 +257,7 @@ def concrete_block(seed, fam, base, order, token, nrows):
         for j in range(isz):                      # one pass per byte column: every byte of a row depends on its index
             raw[:, j] = ((c * np.uint64(2 * j + 1) + np.uint64(40503 * j)) >> np.uint64((5 * j) % 17 + 3)).astype(np.uint8)
         a = np.frombuffer(raw.tobytes(), dtype=le).copy()
-        if not (order == "lt" or (order == "na" and np.little_endian)):
-            a = a.byteswap().view(dtype_of(fam, base, "gt"))
-        _BLOCKS[key] = a
+        _BLOCKS[key] = reorder(a, fam, base, order)
     return _BLOCKS[key]
 
 
